@@ -139,23 +139,32 @@ pub fn search(rng: &mut Rng, budget: u64, fails: &mut Vec<Failure>) {
 /// printed exactly when the ISO calendar annotation is forced
 pub fn ymmd_canonical(y: i64, m: u8, d: u8, fails: &mut Vec<Failure>) {
     let yt = if (0..=9999).contains(&y) { format!("{y:04}") } else { format!("{}{:06}", if y < 0 { '-' } else { '+' }, y.abs()) };
-    for (show, ann) in [(DisplayCalendar::Auto, None), (DisplayCalendar::Never, None), (DisplayCalendar::Always, Some("[u-ca=iso8601]")), (DisplayCalendar::Critical, Some("[!u-ca=iso8601]"))] {
-        for refday in [None, Some(d)] {
-            if let Ok(Ok(ym)) = catch_unwind(|| PlainYearMonth::new_with_overflow(y as i32, m, refday, Calendar::default(), ArithmeticOverflow::Reject)) {
-                let want = match ann { None => format!("{yt}-{m:02}"), Some(a) => format!("{yt}-{m:02}-{:02}{a}", refday.unwrap_or(1)) };
-                match catch_unwind(|| ym.to_ixdtf_string(show)) {
-                    Ok(t) if t == want => {}
-                    other => fails.push(Failure { what: "PlainYearMonth canonical text".into(), input: format!("{y}-{m} reference day {refday:?} display {show:?}"), expected: want, observed: format!("{other:?}") }),
+    // (calendar, is ISO): with a non-ISO calendar the full reference date is always printed, the annotation unless `never`
+    for (cal, iso) in [(Calendar::default(), true), (Calendar::from_str("gregory").unwrap_or_default(), false)] {
+        let id = if iso { "iso8601" } else { "gregory" };
+        if !iso && cal.identifier() != "gregory" { continue; }
+        for show in [DisplayCalendar::Auto, DisplayCalendar::Never, DisplayCalendar::Always, DisplayCalendar::Critical] {
+            let ann = match show { DisplayCalendar::Never => String::new(), DisplayCalendar::Auto if iso => String::new(), DisplayCalendar::Critical => format!("[!u-ca={id}]"), _ => format!("[u-ca={id}]") };
+            let full = !iso || matches!(show, DisplayCalendar::Always | DisplayCalendar::Critical);
+            for refday in [None, Some(d)] {
+                let c = cal.clone();
+                if let Ok(Ok(ym)) = catch_unwind(move || PlainYearMonth::new_with_overflow(y as i32, m, refday, c, ArithmeticOverflow::Reject)) {
+                    let want = if full { format!("{yt}-{m:02}-{:02}{ann}", refday.unwrap_or(1)) } else { format!("{yt}-{m:02}{ann}") };
+                    match catch_unwind(|| ym.to_ixdtf_string(show)) {
+                        Ok(t) if t == want => {}
+                        other => fails.push(Failure { what: "PlainYearMonth canonical text".into(), input: format!("{y}-{m} reference day {refday:?} calendar {id} display {show:?}"), expected: want, observed: format!("{other:?}") }),
+                    }
                 }
             }
-        }
-        for refyear in [None, Some(y as i32)] {
-            if let Ok(Ok(md)) = catch_unwind(|| PlainMonthDay::new_with_overflow(m, d, Calendar::default(), ArithmeticOverflow::Reject, refyear)) {
-                let ry = refyear.map(|_| yt.clone()).unwrap_or("1972".into());
-                let want = match ann { None => format!("{m:02}-{d:02}"), Some(a) => format!("{ry}-{m:02}-{d:02}{a}") };
-                match catch_unwind(|| md.to_ixdtf_string(show)) {
-                    Ok(t) if t == want => {}
-                    other => fails.push(Failure { what: "PlainMonthDay canonical text".into(), input: format!("{m}-{d} reference year {refyear:?} display {show:?}"), expected: want, observed: format!("{other:?}") }),
+            for refyear in [None, Some(y as i32)] {
+                let c = cal.clone();
+                if let Ok(Ok(md)) = catch_unwind(move || PlainMonthDay::new_with_overflow(m, d, c, ArithmeticOverflow::Reject, refyear)) {
+                    let ry = refyear.map(|_| yt.clone()).unwrap_or("1972".into());
+                    let want = if full { format!("{ry}-{m:02}-{d:02}{ann}") } else { format!("{m:02}-{d:02}{ann}") };
+                    match catch_unwind(|| md.to_ixdtf_string(show)) {
+                        Ok(t) if t == want => {}
+                        other => fails.push(Failure { what: "PlainMonthDay canonical text".into(), input: format!("{m}-{d} reference year {refyear:?} calendar {id} display {show:?}"), expected: want, observed: format!("{other:?}") }),
+                    }
                 }
             }
         }
